@@ -802,6 +802,8 @@ cmd_crypt (int argc, char **argv)
                     && !memcmp (cd->input, phrase, (size_t) pl + 1));
       else
         out_printf (" can=-");
+      if (full == 2)
+        out_printf (" az=%d", all_zero ((char *) cd + sizeof cd->output, sizeof *cd - sizeof cd->output));
       out_printf (" iz=%d rz=%d init=%d", all_zero (cd->internal, sizeof cd->internal),
                   all_zero (cd->reserved, sizeof cd->reserved), (int) cd->initialized);
       if (full == 1)
@@ -1302,6 +1304,12 @@ handle (char *line)
   else if (!strcmp (c, "ledger") && argc >= 2)
     {
       g_ledger_on = atoi (argv[1]);
+#ifndef VW_NOWRAP
+      /* a fresh ledger per history: forget what earlier histories left */
+      for (int i = 0; i < nled; i++) led[i].live = led[i].unmapfail = 0;
+      nled = 0;
+      g_ledger_errs = 0;
+#endif
       out_printf ("ok");
     }
   else if (!strcmp (c, "fault") && argc >= 2)
